@@ -12,7 +12,11 @@ def crossed_rehash(cid, lines, ri):
     return ("|".join(lines))   # distinct script that crossed at least one rehash
 
 RULE = ("seeded op scripts (insert/operator[]=/get+find/remove/iterate/size) over 5 hash functions returning 64-bit values "
-        "(identity, constant, mod 3, frg::hash<uint64_t>, k>>28; the first and last exceed 2^32) and key spaces 8..2^40 plus 2^32, 2^63, 2^64-1, biased to "
+        "(identity, constant, mod 3, frg::hash<uint64_t>, k>>28; the first and last exceed 2^32) selected by the STATE of the hasher "
+        "object, which the script re-seeds after the map copied it (op reseed) or which is a temporary (15 % of the cases), plus the "
+        "instantiation hash_map<int64_t, V, frg::hash<int64_t>> with mostly negative keys that fit 32/16/8 bits, every get() repeated "
+        "with the key as long, int, short, signed char where it fits (all must return the node get(Key) returns); "
+        "key spaces 8..2^40 plus 2^32, 2^63, 2^64-1, biased to "
         "cross rehash thresholds; non-trivial = distinct script with more than 10 insertions (>= 1 rehash beyond the first). "
         "POINTER-LEVEL model (coq/HashMap/HashMapPtr.v, proved to refine the chain-level model): the same scripts; compared with the "
         "real code after EVERY op: the result line, the raw object (_table block id, _capacity, _size, per bucket the chain of "
@@ -63,7 +67,7 @@ def _is_raw(lines):
 def raw_stats(c, lines, ri):
     """counters for a raw script, taken from the REAL object's table dumps: direct rehash() calls by kind of capacity change;
     returns the nontrivial key (a script with >= 1 rehash() of >= 3 entries whose new capacity is not a multiple of the old)"""
-    ops = [l for l in lines if not l.startswith("hash ")]
+    ops = [l for l in lines if not (l.startswith("hash ") or l.startswith("reseed "))]
     dumps = [l.split() for l in ri["lines"] if l.startswith("t ")]
     hard = False
     for k, op in enumerate(ops):
@@ -118,7 +122,9 @@ def run(c):
     for _, ls in raw:
         c.count("hashmap_raw_ops", len(ls))
     for _, ls in cases:
-        c.count("hashmap_ops", len(ls)); c.count("hashmap_hash_kind_" + ls[0].split()[-1])
+        c.count("hashmap_ops", len(ls)); c.count("hashmap_hash_kind_" + ls[0].split()[1])
+        c.count("hashmap_hasher_temporary", 1 if ls[0].endswith(" tmp") else 0)
+        c.count("hashmap_reseed_ops", sum(1 for l in ls if l.startswith("reseed ")))
     # the model is parametric in sizeof(chain *) and sizeof(chain); measure them on the real code
     rc, so, _ = vlib.sh([har, "--sizes"], timeout=60)
     sizes = so.split()
